@@ -6,6 +6,7 @@
   whole programs against the reference semantics with cut is in Properties/C01 (staged there).
 -/
 import PrologVerif.Proofs.Promise
+import PrologVerif.Proofs.ForceDFS
 namespace PrologVerif.C03
 open PrologVerif PrologVerif.Promise
 
@@ -54,5 +55,55 @@ theorem C03_force_cut_step (sem : Sem τ ρ ε σ) (n : Nat) (p : P τ ρ ε) (t
   simp only [force, isCancelled, hd, hcp]
   simp
   rfl
+
+end PrologVerif.C03
+
+/-! ### the trampoline finds what depth-first search with a cut barrier finds -/
+
+namespace PrologVerif.C03
+open PrologVerif PrologVerif.Promise PrologVerif.PTree PrologVerif.DFS
+
+/-- result of `Force` for a signal that reaches the root -/
+def toRes : Sig → Res Nat
+  | .found => .yes
+  | .exhausted _ => .no
+  | .raised e _ => .error e
+  | .illScoped => .no
+
+/-- **C03_force_refines_dfs** (= `force_dfs` at the root).  For EVERY well-scoped promise tree — any
+    nesting of alternatives, cuts to live ancestors, catch frames with (de)activation, repeat, side
+    effects — if the recursive reference search (depth-first, left to right, cut barrier, catch)
+    finishes with signal `sig` and state `s'`, then `Force` on the real stack machine finishes with
+    the corresponding result and EXACTLY the same side effects in the same order (`s'` holds the
+    trace of every thunk evaluation).  In particular: a cut discards precisely the alternatives of
+    the nodes between the cut and its parent, and the parent's own; nothing older is lost, and every
+    alternative that the reference search tries is tried, once. -/
+theorem C03_force_refines_dfs (k : Nat) (t : PT) (sig : Sig) (s' : St)
+    (h : dfs k t [] {} = some (sig, s')) (hs : sig ≠ .illScoped) :
+    ∃ fuel m, run fuel none t = some (toRes sig, m) ∧ m.user = s' := by
+  obtain ⟨cost, di, hf⟩ := ForceDFS.force_dfs k t [] {} s' sig h hs [] rfl List.nodup_nil
+  have h2 := hf 2 0
+  have key : ∃ m, ForceDFS.after sig [] ⟨s', 0 + di⟩ 2 = some (toRes sig, m) ∧ m.user = s' := by
+    cases sig with
+    | found => exact ⟨_, rfl, rfl⟩
+    | exhausted co =>
+      cases co with
+      | none => exact ⟨_, rfl, rfl⟩
+      | some c =>
+        by_cases hc : c = 0
+        · subst hc; exact ⟨_, rfl, rfl⟩
+        · refine ⟨⟨s', 0 + di + 1⟩, ?_, rfl⟩
+          simp [ForceDFS.after, ForceDFS.cutOpt, cutStack, hc, toRes, force, popUntil, marker, isCancelled]
+    | raised e co =>
+      cases co with
+      | none => exact ⟨_, rfl, rfl⟩
+      | some c =>
+        by_cases hc : c = 0
+        · subst hc; exact ⟨_, rfl, rfl⟩
+        · refine ⟨⟨s', 0 + di⟩, ?_, rfl⟩
+          simp [ForceDFS.after, ForceDFS.cutOpt, cutStack, hc, toRes, recoverStack, popUntil, marker]
+    | illScoped => exact absurd rfl hs
+  obtain ⟨m, hm, hu⟩ := key
+  exact ⟨2 + cost, m, by unfold run; rw [h2]; exact hm, hu⟩
 
 end PrologVerif.C03
